@@ -4,6 +4,7 @@ package main
 
 import (
 	"regexp"
+	"strconv"
 	"sort"
 	"strings"
 )
@@ -170,12 +171,65 @@ func groundVersion(o *Obligation, axioms []Term) (*Obligation, bool) {
 	if len(ts) == 0 {
 		return nil, false
 	}
-	// two rounds so that instances exposing new index terms get instantiated as well
 	no := *o
 	no.Hyps = nil
+	// skolemize positive universal quantifiers of the goal so that their index terms take part
+	gt := skolemize(parseSx(o.Goal.S), true, &no.ExtraDecls)
+	no.Goal = Term{S: gt.String(), So: SBool}
+	collectIndexTerms(gt, terms)
+	ts = ts[:0]
+	for t := range terms {
+		ts = append(ts, t)
+	}
+	sort.Strings(ts)
+	if len(ts) > 32 {
+		ts = ts[:32]
+	}
 	for _, t := range trees {
 		it := instantiate(t, ts, true)
 		no.Hyps = append(no.Hyps, Term{S: it.String(), So: SBool})
 	}
 	return &no, true
 }
+
+var skCounter int
+
+// skolemize replaces positively occurring foralls (i.e. existentials of the negated goal) by fresh constants.
+func skolemize(n *sx, positive bool, decls *[]string) *sx {
+	if n == nil || n.kids == nil {
+		return n
+	}
+	switch n.head() {
+	case "forall":
+		if positive && len(n.kids) == 3 {
+			body := n.kids[2].String()
+			for _, b := range n.kids[1].kids {
+				skCounter++
+				name := "sk" + strings.ReplaceAll(b.kids[0].atom, "!", "_") + "!" + itoa(skCounter)
+				*decls = append(*decls, "(declare-const "+name+" "+b.kids[1].String()+")")
+				body = strings.ReplaceAll(body, b.kids[0].atom, name)
+			}
+			return skolemize(parseSx(body), true, decls)
+		}
+		return n
+	case "exists":
+		return n
+	case "and", "or":
+		out := &sx{kids: []*sx{n.kids[0]}}
+		for _, k := range n.kids[1:] {
+			out.kids = append(out.kids, skolemize(k, positive, decls))
+		}
+		return out
+	case "=>":
+		if len(n.kids) == 3 {
+			return &sx{kids: []*sx{n.kids[0], skolemize(n.kids[1], !positive, decls), skolemize(n.kids[2], positive, decls)}}
+		}
+	case "not":
+		if len(n.kids) == 2 {
+			return &sx{kids: []*sx{n.kids[0], skolemize(n.kids[1], !positive, decls)}}
+		}
+	}
+	return n
+}
+
+func itoa(i int) string { return strconv.Itoa(i) }
